@@ -95,7 +95,7 @@ int main(int argc, char **argv) {
       if (lg::parseCase(lg::loadCaseFile(p), c, lp)) r.run("c" + std::to_string(k++), c, lp, "corpus");
     }
   }
-  long long n = a.thorough() ? 60000 : (a.search() ? 20000 : 2000);
+  long long n = a.thorough() ? 30000 : (a.search() ? 20000 : 2000);
   for (long long i = 0; i < n; ++i) {
     if (a.only >= 0 && i != a.only) continue;
     vh::Rng g = vh::Rng::forCase(a.seed, i);
